@@ -159,6 +159,15 @@ def impl(case):
         if _pool_out(q, enc) != _pool_out(ref, enc) or [q[i] for i in range(len(q))] != list(ref) or q.total != ref.total or not (q == ref):
             flags += " slice(%s,%s,%s)-not-canonical" % (sl.start, sl.stop, sl.step)
             break
+    # p.h() is the sum of p's dice, count for count (the convolution itself is C01's subject)
+    if 1 <= len(p) <= 6:
+        from dyce import H
+
+        acc = H({0: 1})
+        for die in p:
+            acc = acc + die
+        if {o: c for o, c in p.h().items() if c} != {o: c for o, c in acc.items() if c} or p.h().total != p.total:
+            flags += " h()-is-not-the-sum-of-the-dice"
     # pools that compare equal denote the same distribution (a pool == its h() by C05, and equality is transitive):
     # neighbours of p that differ in how often a die occurs must not be == p unless their sums agree
     if len(p):
